@@ -57,6 +57,35 @@ def nested_input(name: str, desc: dict):
     return v.tolist() if isinstance(v, np.ndarray) else v
 
 
+class CustomError(Exception):
+    """A picklable user exception with arguments (used as an injected failure)."""
+
+    def __init__(self, code, detail):
+        super().__init__(code, detail)
+        self.code, self.detail = code, detail
+
+
+def exc_no_args():
+    return ValueError()
+
+
+def exc_with_args():
+    return KeyError("missing-key", 42)
+
+
+def exc_custom():
+    return CustomError(7, "custom detail")
+
+
+SENTINEL = RuntimeError("sentinel failure")  # one instance raised again and again (a remembered failure)
+
+
+def exc_sentinel():
+    return SENTINEL
+
+
+EXC_FACTORIES = {"ValueError()": exc_no_args, "KeyError(args)": exc_with_args, "CustomError": exc_custom}
+
 _LOG: list | None = None
 _LOGFILE: str | None = None
 _FAIL: dict | None = None  # {"func": name, "call": n, "exc": callable}
@@ -85,9 +114,9 @@ def _body(fname: str, outputs: tuple, internal, kw: dict):
     if _FAIL is not None and _FAIL["func"] == fname:
         n = _COUNTS.get(fname, 0)
         _COUNTS[fname] = n + 1
-        if _FAIL.get("call") in (None, n) or (_FAIL.get("match") is not None and _FAIL["match"] in s):
-            if _FAIL.get("match") is None or _FAIL["match"] in s:
-                raise _FAIL["exc"]()
+        hit = (_FAIL["tag"] == s) if _FAIL.get("tag") is not None else (_FAIL.get("call") in (None, n))
+        if hit:
+            raise _FAIL["exc"]()
 
     def one(tag):
         if internal:
